@@ -434,7 +434,91 @@ def every_context_refreshed(ctx):
               (da[0][1] if da else "") + " - the cached cgroup after a removed one is not refreshed on that tick and keeps serving last tick's values and identity")
 
 
+def memory_protection_scheme(ctx):
+    """Shared by C09 and C15: P(cgroup) = R(cgroup) * min(1, P(parent) / sum of the siblings' R).  getMemoryProtection answers with the
+    cgroup's own raw claim only where the documentation says so (the root: its usage; a top-level cgroup: P == R); every other value it
+    returns comes out of normalizedProtection(), i.e. has been scaled by the siblings' sum."""
+    P, cg = ctx.prog, ctx.cg
+    f = ctx.fn1("Oomd::CgroupContext::getMemoryProtection")
+    fl = Flow(P, f, cg=cg)
+    X = Expander(P, f)
+    n_norm = 0
+    for r, leaf in return_leaves(f):
+        t = X(leaf)
+        if t in ("std::nullopt", "{}"):
+            continue
+        g = expanded_guards(P, f, fl, leaf, X)
+        at_root = any(isinstance(k, str) and re.search(r"cgroup_\.isRoot\(\)$", k) and p is True for k, p in g)
+        top_level = any(isinstance(k, str) and re.search(r"(getParent\(\)|parent\w*)\.isRoot\(\)$", k) and p is True for k, p in g)
+        if at_root or top_level:
+            ctx.ok("memory-protection:documented-shortcut@%d" % f.nodes[r].get("line", 0), "return_table", f.loc(r), "the root / a top-level cgroup answers with its own value")
+            continue
+        scaled = re.search(r"\bnormalizedProtection\(", t) is not None
+        if not scaled:
+            # the same formula written out in place: claim * min(1, P(parent) / sum), and 0 when the siblings claim nothing
+            sums = {f.text(n_["l"]) for n_ in f.nodes if n_["k"] == "bin" and n_.get("op") == "+=" and re.match(r"^\w+$", f.text(n_["l"]))}
+            for d_ in f.all("decl"):
+                for v_ in f.nodes[d_].get("vars", []):
+                    if v_.get("init") is not None and v_.get("init", -1) >= 0 and "std::accumulate(" in f.text(v_["init"]):
+                        sums.add(v_["name"])
+            if t == "0":
+                scaled = any(isinstance(k, str) and p is True and (any(k in ("(0 == %s)" % s_, "(%s == 0)" % s_) for s_ in sums) or
+                                                                    re.match(r"^\(0 == std::accumulate\(", k)) for k, p in g)
+            else:
+                scaled = "std::min(1" in t and "memory_protection(" in t and "rawProtection(" in t and \
+                    (any(re.search(r"/ (var:)?%s\b" % re.escape(s_), t) for s_ in sums) or "/ std::accumulate(" in t)
+        n_norm += scaled
+        ctx.check(scaled, "memory-protection:scaled-by-siblings@%d" % f.nodes[r].get("line", 0), "return_table (helpers named)", f.loc(r),
+                  "below the top level the protection is the claim scaled by the parent's protection over the siblings' sum",
+                  "getMemoryProtection returns '%s' for a cgroup below the top level without going through normalizedProtection(): the claim is not "
+                  "scaled by P(parent) / sum of the siblings' claims, so children of an over-committed parent keep their full claim and "
+                  "(usage - protection) ranks them too low" % t[:80])
+    ctx.check(n_norm >= 1, "memory-protection:normalised-return-present", "return_table", f.loc(), "a normalised return exists", "no return of getMemoryProtection goes through normalizedProtection()")
+
+
+def cached_slot_types_agree(ctx):
+    """Shared by C01, C07 and C15: what a reader returns is cached unchanged.  Every hand-over of a SystemMaybe<T> into a per-tick slot
+    std::optional<U> (the PROXY accessors' helper, whatever it is called) has T == U, and the identity slot holds the full 64-bit inode
+    number: on cgroup2 the low 32 bits are a recycled slot number and the high bits a generation counter, so a truncated id makes a
+    re-created cgroup indistinguishable from its predecessor (the deferred-victim re-resolution and the per-cgroup history rely on it)."""
+    P = ctx.prog
+    n = 0
+    for f in sorted(P.fns.values(), key=lambda x: x.usr):
+        if f.file not in ("oomd/CgroupContext.cpp", "oomd/CgroupContext.h"):
+            continue
+        for i in f.calls():
+            pt = f.nodes[i].get("ptypes") or []
+            if len(pt) < 2:
+                continue
+            m1 = re.match(r"^(?:Oomd::)?SystemMaybe<(.*)>$", pt[0].replace("const ", "").strip())
+            m2 = re.match(r"^std::optional<(.*)> &$", pt[1].strip())
+            if not (m1 and m2):
+                continue
+            n += 1
+            ctx.use(f)
+            unq = lambda t_: re.sub(r"\b(?:\w+::)+", "", t_).replace(" ", "")
+            ctx.check(unq(m1.group(1)) == unq(m2.group(1)), "cached-slot-type-agrees:%s@%d" % (short(f), f.nodes[i].get("line", 0)), "E-TYPE (reader / slot agreement)", f.loc(i),
+                      "the slot holds the reader's type",
+                      "%s hands a %s to a slot of type std::optional<%s>: the value is converted silently on its way into the cache (an inode number "
+                      "loses its upper 32 bits - the generation counter of a re-created cgroup - a byte count its range)" % (short(f), pt[0], m2.group(1)))
+    ctx.counters["cached_slot_handovers"] = n
+    ctx.floor("cached_slot_handovers", 10, "reader-to-slot hand-overs in CgroupContext (PROXY accessors)")
+    idf = ctx.fn1("Oomd::CgroupContext::id")
+    slot = None
+    for i in idf.calls():
+        pt = idf.nodes[i].get("ptypes") or []
+        if len(pt) >= 2 and re.match(r"^std::optional<(.*)> &$", pt[1].strip()):
+            slot = re.match(r"^std::optional<(.*)> &$", pt[1].strip()).group(1)
+    if slot is None:
+        ctx.broken("identity-is-the-64-bit-inode", "anchor", idf.loc(), "cannot find the slot CgroupContext::id() fills")
+    else:
+        ctx.check(slot in ("unsigned long", "uint64_t", "unsigned long long", "ino_t", "__ino_t", "ino64_t"), "identity-is-the-64-bit-inode", "E-TYPE (declared width)", idf.loc(),
+                  "the cgroup identity is the 64-bit inode number", "CgroupContext::id() caches the inode number as '%s'" % slot)
+
+
 def run(ctx):
+    cached_slot_types_agree(ctx)
+    memory_protection_scheme(ctx)
     borrowed_fd_not_consumed(ctx)
     iostat_line_accepted_as_parsed(ctx)
     P, cg = ctx.prog, ctx.cg
